@@ -426,10 +426,39 @@ func wrRestoreMain(args []string) int {
 		s, _ := d.NewSnapshot()
 		os.RemoveAll(*dir)
 		s.Open()
-		if err := d.StoreToDisk(*dir, s, 1+rnd.Intn(3), nil); err != nil {
+		// while the backup scans: most keys are deleted, every other snapshot closed and the garbage collected, so that with
+		// delta interleaving items reach the delta files -- some of them after the scan has written them to a shard as well
+		// (LoadFromDisk must reject those duplicates and release them)
+		var sweep sync.Once
+		sOpen := true
+		cb := func(*nitro.ItemEntry) {
+			if rnd.Intn(3) != 0 {
+				return
+			}
+			sweep.Do(func() {
+				for k := 1; k <= nk; k++ {
+					if k%4 != 0 {
+						d.W[0].Delete(d.Item(k, 0))
+					}
+				}
+				sx, _ := d.NewSnapshot()
+				for _, x := range snaps {
+					x.Close()
+				}
+				snaps = nil
+				s.Close()
+				sOpen = false
+				sx.Close()
+				d.GC()
+				d.Quiesce()
+			})
+		}
+		if err := d.StoreToDisk(*dir, s, 1+rnd.Intn(3), cb); err != nil {
 			die("StoreToDisk: %v", err)
 		}
-		s.Close()
+		if sOpen {
+			s.Close()
+		}
 		for _, x := range snaps {
 			x.Close()
 		}
